@@ -37,11 +37,13 @@ pub struct Model {
     pub byte_length: u64,
     pub held: BTreeMap<u64, Vec<u8>>,
     pub writable: bool,
+    /// fork counter (only foreign JS storage with a truncate entry has a non-zero fork)
+    pub fork: u64,
 }
 
 impl Model {
     pub fn new(writable: bool) -> Model {
-        Model { length: 0, byte_length: 0, held: BTreeMap::new(), writable }
+        Model { length: 0, byte_length: 0, held: BTreeMap::new(), writable, fork: 0 }
     }
     pub fn append(&mut self, blocks: &[Vec<u8>]) {
         for b in blocks {
@@ -82,6 +84,7 @@ impl Model {
         d.u64(self.length);
         d.u64(self.byte_length);
         d.u64(self.writable as u64);
+        d.u64(self.fork);
         for (k, v) in &self.held {
             d.u64(*k);
             d.bytes(v);
